@@ -2,6 +2,7 @@
 Require Extraction.
 Require Import ExtrOcamlBasic.
 From Coq Require Import ZArith.
-From Verif.C16 Require Import ModelBase Extracted Model.
+From Verif.C16 Require Import ModelBase Extracted Model Warmup.
 Extraction "model_ml.ml" step_op final hc_read_full hc_read_partial hc_list inv_b empty_st
-  inner repair_all repair_all_idx tree_packs_of repair_except_packs repair_packs remove_hot truncate_hot mem exec_ops Z.of_N.  (* Z.of_N only so that the shared zn prelude finds the type Z *)
+  inner repair_all repair_all_idx tree_packs_of repair_except_packs repair_packs remove_hot truncate_hot mem exec_ops
+  cold_run disciplined_from all_served cmd_cold_results Z.of_N.  (* Z.of_N only so that the shared zn prelude finds the type Z *)
